@@ -77,6 +77,7 @@ def check(col, prog, tier, profile, fixture=None):
     col.rule("U2", "no unsafe block / unsafe fn / inline asm in the reachable set outside std macro expansions", floor=10 if not fixture else 0)
     col.rule("U3", "no allow(static_mut_refs) suppression on reachable functions", floor=10 if not fixture else 0)
     nstatic_refs = 0
+    loads, stores = {}, {}   # shared atomic static -> [(body, bb)] over the whole reachable set
     for key, b in sorted(reach.items()):
         std_expanded = bool(b.span.get("exp")) and b.span.get("macro_crate") in ("std", "core")
         # ---- U2
@@ -108,7 +109,6 @@ def check(col, prog, tier, profile, fixture=None):
             col.ok("U3", b.loc(), util.fkey(b), None, nontrivial=False)
             col.obligation(True)
         # ---- U1: statics referenced
-        loads, stores = {}, {}
         for sk, where in _static_refs(b):
             nstatic_refs += 1
             s = statics.get(sk)
@@ -134,11 +134,16 @@ def check(col, prog, tier, profile, fixture=None):
             if p.startswith("std::sync::atomic::Atomic") and fn.get("name") in ("load", "store"):
                 tgt = _arg_static(b, t)
                 if tgt is not None:
-                    (loads if fn["name"] == "load" else stores).setdefault(tgt, []).append(bb)
-        for sk in set(loads) & set(stores):
-            s = statics.get(sk, {"path": sk})
-            col.violation("U1b", "%s|atomic-rmw|%s" % (util.fkey(b), s["path"]), b.loc(stores[sk][0]), "%s updates the shared atomic static %s by a separate load and store: concurrent draws can be lost or duplicated (no data race, but not a sequentially producible stream)" % (b.path, s["path"]))
-            col.obligation(False)
+                    (loads if fn["name"] == "load" else stores).setdefault(tgt, []).append((b, bb))
+    # a shared atomic that is read by `load` somewhere and written by `store` somewhere in the reachable set (the same
+    # function or not: a thread-local initialiser reading what gen_priority publishes) is updated by a separate load and
+    # store: what one thread observes depends on how far the others have got
+    for sk in sorted(set(loads) & set(stores)):
+        s = statics.get(sk, {"path": sk})
+        sb, sbb = stores[sk][0]
+        lb, _lbb = loads[sk][0]
+        col.violation("U1b", "%s|atomic-rmw|%s" % (util.fkey(sb), s["path"]), sb.loc(sbb), "%s stores into the shared atomic static %s which %s reads with a separate load: concurrent draws can be lost or duplicated and a thread's priority stream depends on the progress of other threads (no data race, but not what the thread would see alone)" % (sb.path, s["path"], lb.path))
+        col.obligation(False)
     # every static defined in the crates of the reachable set
     crates_reached = {b.crate.name for b in reach.values()}
     # ---- U2: hand-written `unsafe impl Send/Sync` in those crates (a promise the compiler does not check)
